@@ -72,13 +72,13 @@ def secret_body(kid, created=None, protect=None, alg=None):
     return rkeys.build_secret_body(alg or a, c if created is None else created, params, secret, curve, kdf, protect)
 
 
-def ref_secret(kid, created=None):
-    """refpgp SecKey (unprotected) for the pooled key"""
-    return rkeys.parse_secret_body(secret_body(kid, created))
+def ref_secret(kid, created=None, alg=None):
+    """refpgp SecKey (unprotected) for the pooled key; alg overrides the algorithm id (RSA aliases 2, 3)"""
+    return rkeys.parse_secret_body(secret_body(kid, created, alg=alg))
 
 
-def ref_public(kid, created=None):
-    return rkeys.parse_public_body(public_body(kid, created))[0]
+def ref_public(kid, created=None, alg=None):
+    return rkeys.parse_public_body(public_body(kid, created, alg=alg))[0]
 
 
 def secret_ints(kid):
@@ -96,15 +96,15 @@ def std_hashed(created, issuer_fpr, extra=b''):
 
 
 def ref_cert(primary, uids=('Pool Key <pool@example.org>',), subkeys=(), secret=True, halg=8, sig_time=None,
-             primary_flags=0x03, prefs=True, key_created=None, uid_extra=b'', fmt='new'):
+             primary_flags=0x03, prefs=True, key_created=None, uid_extra=b'', fmt='new', alg=None):
     """A transferable (secret or public) key made entirely by refpgp: primary, user ids with positive
     self-certifications, subkeys [(kid, flags)] with binding signatures (embedded 0x19 for signing subkeys).
     Returns octets."""
-    psec = ref_secret(primary, key_created)
+    psec = ref_secret(primary, key_created, alg=alg)
     ppub = psec.pub
     st = sig_time if sig_time is not None else ppub.created + 100
     out = bytearray()
-    out += wire.build_packet(5 if secret else 6, secret_body(primary, key_created) if secret else ppub.body, fmt)
+    out += wire.build_packet(5 if secret else 6, secret_body(primary, key_created, alg=alg) if secret else ppub.body, fmt)
     for i, uid in enumerate(uids):
         ub = uid.encode('utf-8') if isinstance(uid, str) else bytes(uid)
         extra = sp(27, bytes([primary_flags]))
